@@ -182,7 +182,8 @@ Inductive label :=
 | Deliver      (* handle_prefix_update on the oldest queued change *)
 | Flush        (* flush_tx: drain_messages, bytes reach the neighbour *)
 | Register     (* on_established: initial dump + channel registration, one critical section *)
-| Refresh.     (* do_route_refresh *)
+| Refresh      (* do_route_refresh *)
+| Unregister.  (* unregister_peer at session end: the channel is dropped with the session *)
 
 Section WithPolicy.
 Variable keying_ : keying.
@@ -371,6 +372,7 @@ Definition step (s : state) (l : label) : state :=
                       n_beor := n_beor n; n_ptx := sink_ptx (snd st) (n_ptx n);
                       n_eor := true; n_mirror := n_mirror n |}
       else s
+  | Unregister => with_nbr s nbr0
   end.
 
 Definition run_from (s : state) (ls : list label) : state := fold_left step ls s.
@@ -495,6 +497,7 @@ Definition observe1 (g : cfg) (s : state CE) (l : label) : val :=
                  v_check g s']
   | Register => VL [VN 4]
   | Refresh => VL [VN 5; VB (pending_empty n')]
+  | Unregister => VL [VN 7]
   end.
 
 Definition observe (g : cfg) (s : state CE) (l : label) : list val :=
